@@ -178,7 +178,7 @@ func runC07(c *vlib.Check) {
 	c.Rule = fmt.Sprintf("explicit-state search over transport answers: message sequences of length <=%d over sizes {8,16,24,520,1032} and top-level padded scalars (5-byte text, 9-byte byte string, integer); every Read(p) is answered with a size from {len(p),1,2,7,8,len(p)-1} "+
 		"(deviation = any answer other than len(p), bound %d, iterated); all 2^(L-1) segmentations of every stream of L<=%d bytes; truncation of every stream at every offset (with full reads and with 1-byte reads); "+
 		"announced value lengths {limit-24 .. limit+8 incl. unaligned ones, 2^31-16 .. 2^31+8, 0xBFFFFFF8, 2^32-16 .. 2^32-1} against limits {64, 1 MiB}; every answer sequence also with the limit set to the largest message of the sequence (a per-message limit must not act on the stream total); "+
-		"size histories: all ordered pairs of message sizes 16..2048 step 8 (thorough: ..8192, and triples on a 136-byte grid) on one stream, with and without that limit, and all ordered pairs of large messages {4 KiB .. 128 KiB, around powers of two}. The rejection is also driven through the real server (1 MiB limit): an oversized header followed by a valid request is answered once and the following bytes are not served. Reference model: split the byte stream at the announced padded lengths. "+
+		"size histories: all ordered pairs of message sizes 16..2048 step 8 (thorough: ..8192, and triples on a 136-byte grid) on one stream, with and without that limit, and all ordered pairs of large messages {4 KiB .. 128 KiB, around powers of two}. Sending side: every ordered pair of Sends (successful, failing, failing half-way, panicking in the encoder) x 4 sizes on two streams - the second stream carries exactly its own message. The rejection is also driven through the real server (1 MiB limit): an oversized header followed by a valid request is answered once and the following bytes are not served. Reference model: split the byte stream at the announced padded lengths. "+
 		"states = distinct (stream, answer sequence) pairs, transitions = Recv calls", maxSeq, maxDev, segL)
 	c.Assumptions = []string{"the transport never returns more than len(p) bytes and returns at least one byte per successful Read"}
 	var seqs [][]int
@@ -417,6 +417,7 @@ func runC07(c *vlib.Check) {
 		}
 	}
 	states += c07Server(c)
+	states += c07SendHistories(c)
 	c.States = states
 	c.Exhaustive = c.Exhaustive || !c07Inconclusive
 	if c07Inconclusive {
@@ -499,6 +500,81 @@ func c07Server(c *vlib.Check) int64 {
 		} else if ne, ok := lastErr.(net.Error); ok && ne.Timeout() {
 			c07Inconclusive = true // the connection was still open after 20 s: not decided here (no wall-clock verdicts)
 			fmt.Printf("MACHINERY: server-oversize %d: the connection was not closed within 20 s; left undecided\n", vl)
+		}
+	}
+	return n
+}
+
+type c07Writer struct {
+	buf      bytes.Buffer
+	failKind int      // 0 ok, 1 error without writing, 2 half written then error
+	held     [][]byte // the slices handed to Write (to detect later modification of bytes still owned by the writer)
+}
+
+func (w *c07Writer) Read(p []byte) (int, error) { return 0, io.EOF }
+func (w *c07Writer) Close() error               { return nil }
+func (w *c07Writer) Write(p []byte) (int, error) {
+	w.held = append(w.held, p)
+	switch w.failKind {
+	case 1:
+		return 0, errors.New("write: broken pipe")
+	case 2:
+		w.buf.Write(p[:len(p)/2])
+		return len(p) / 2, errors.New("write: connection reset")
+	}
+	w.buf.Write(p)
+	return len(p), nil
+}
+
+// c07SendHistories: the sending side. For every ordered pair (first, second) over {a Send whose Write fails, a Send whose
+// Write fails half-way, a Send whose encoding panics, a successful Send} x message sizes {small, 5 KiB, 9 KiB, 40 KiB}, the
+// two Sends go to two different streams: the second stream receives exactly the bytes of its own message, and the bytes
+// handed to the first stream's writer are not modified afterwards.
+func c07SendHistories(c *vlib.Check) int64 {
+	var n int64
+	sizes := []int{24, 5000, 9000, 40000}
+	mk := func(sz int, fill byte) ttlv.Value {
+		return ttlv.Value{Tag: 0x420069, Value: ttlv.Struct{{Tag: 0x420008, Value: bytes.Repeat([]byte{fill}, sz)}}}
+	}
+	for _, firstKind := range []int{0, 1, 2, 3} { // 3 = the encoding panics (negative interval inside a structure)
+		for _, s1 := range sizes {
+			for _, s2 := range sizes {
+				n++
+				label := fmt.Sprintf("send history: first Send kind=%d of %d bytes, then a Send of %d bytes on another stream", firstKind, s1, s2)
+				c.Eval([]byte(label), true)
+				rep := map[string]any{"kind": "send-history", "case": label}
+				w1 := &c07Writer{failKind: firstKind % 3}
+				st1 := ttlv.NewStream(w1, 0)
+				var first any = mk(s1, 0xA1)
+				if firstKind == 3 {
+					first = ttlv.Value{Tag: 0x420069, Value: ttlv.Struct{{Tag: 0x420008, Value: bytes.Repeat([]byte{0xA1}, s1)}, {Tag: 0x42000A, Value: -time.Second}}}
+				}
+				vlib.Catch(func() { _ = st1.Send(first) })
+				var snapshot [][]byte
+				for _, h := range w1.held {
+					snapshot = append(snapshot, append([]byte{}, h...))
+				}
+				w2 := &c07Writer{}
+				st2 := ttlv.NewStream(w2, 0)
+				second := mk(s2, 0xB2)
+				want := ttlv.MarshalTTLV(second)
+				want = append([]byte{}, want...)
+				var err error
+				if pv, site := vlib.Catch(func() { err = st2.Send(second) }); pv != nil {
+					c.Violation("send-history:panic:"+site, fmt.Sprintf("%s: the second Send panicked: %v", label, pv), rep)
+					continue
+				}
+				if err != nil || !bytes.Equal(w2.buf.Bytes(), want) {
+					c.Violation("send-history:foreign-bytes-on-stream", fmt.Sprintf("%s: the second stream received %d bytes (err %v), its message encodes to %d bytes; the stream carries bytes that are not its message", label, w2.buf.Len(), err, len(want)), rep)
+					continue
+				}
+				for i, h := range w1.held {
+					if !bytes.Equal(h, snapshot[i]) {
+						c.Violation("send-history:written-bytes-modified", fmt.Sprintf("%s: the bytes handed to the first stream's writer changed when the second message was sent", label), rep)
+						break
+					}
+				}
+			}
 		}
 	}
 	return n
